@@ -136,6 +136,24 @@ def compound(S, name, directed=True, min_blocks=1):
     import z3
     from pyvc.values import Obj
     e = S.e
+    if S.scope is not None:
+        # finite-scope refutation mode: n fixed, elements symbolic, object built by the real constructor
+        starts, ends = S.intlist(name + "_starts"), S.intlist(name + "_ends")
+        strand = e.enum_concretize(S.enum(STRAND, name + "_strand"))
+        n = len(starts)
+        if n < min_blocks:
+            from pyvc.values import PathAbort
+            raise PathAbort()
+        plus = strand.name == "PLUS"
+        if directed:
+            S.assume(strand.name != "UNSTRANDED")
+        S.assume(And(*[And(0 <= starts[t], starts[t] <= ends[t]) for t in range(n)]))
+        for t in range(n - 1):
+            S.assume(Or(starts[t] < starts[t + 1],
+                        And(starts[t] == starts[t + 1],
+                            (ends[t] <= ends[t + 1]) if plus else (ends[t] >= ends[t + 1]))))
+        obj = S.new(COMPOUND, list(starts), list(ends), strand)
+        return obj, CompoundView(obj)
     starts = S.intlist(name + "_starts")
     ends = S.intlist(name + "_ends", length=starts.length)  # one length term for both lists
     strand = e.enum_concretize(S.enum(STRAND, name + "_strand"))  # case split: quantified facts depend on it
